@@ -156,3 +156,31 @@ def _fixed_point(repo, ob, failure):
             d = "\n".join(list(difflib.unified_diff(r1["out"].split("\n"), r2["out"].split("\n"), lineterm="", n=0))[:12])
             return {"input": doc, "observed": "second pass differs (rc=%s): %s" % (r2["rc"], d[:600]), "expected": "byte-identical output"}
     return None
+
+
+@generator("C10.")
+def _forward_ref(repo, ob, failure):
+    """geometry must not depend on whether a referenced sibling is written before or after"""
+    import re as _re
+    cases = [
+        # (elements in document order A, same elements in order B)
+        (['<rect id="d" xy="#a|h" width="4" height="4"/>', '<rect surround="#d"/>', '<rect id="a" xy="10" wh="4"/>'], [2, 0, 1]),
+        (['<circle id="d" cxy="#a|v" r="3"/>', '<rect xy="#d|h" wh="2"/>', '<rect id="a" xy="10" wh="4"/>'], [2, 0, 1]),
+        (['<line id="d" xy1="#a@br" x2="30" y2="30"/>', '<rect surround="#d"/>', '<rect id="a" xy="10" wh="4"/>'], [2, 0, 1]),
+        (['<rect id="d" xy="#a|h" wh="4"/>', '<rect xy="#d|v" wh="2"/>', '<rect id="a" xy="10" wh="4"/>'], [2, 0, 1]),
+    ]
+
+    def geom(out):
+        els = _re.findall(r"<(rect|circle|line|ellipse)\b([^>]*)>", out)
+        return sorted((n, " ".join(sorted(_re.findall(r'\b(?:x|y|cx|cy|r|rx|ry|x1|y1|x2|y2|width|height)="[^"]*"', a)))) for n, a in els)
+    for els, perm in cases:
+        a = "<svg>" + "".join(els) + "</svg>"
+        b = "<svg>" + "".join(els[i] for i in perm) + "</svg>"
+        ra, rb = run_svgdx(repo, a), run_svgdx(repo, b)
+        if ra["rc"] == 0 and rb["rc"] == 0 and geom(ra["out"]) != geom(rb["out"]):
+            return {"input": a, "input_permuted": b, "observed": "geometry differs between the two orders: %s vs %s" % (geom(ra["out"]), geom(rb["out"])),
+                    "expected": "identical coordinates for every element"}
+        if (ra["rc"] == 0) != (rb["rc"] == 0):
+            return {"input": a, "input_permuted": b, "observed": "one order fails (rc %s) the other succeeds (rc %s)" % (ra["rc"], rb["rc"]),
+                    "expected": "same outcome in both orders"}
+    return None
